@@ -312,7 +312,18 @@ func runTopoBehaviour(beh []topoStep, res *topoResult, base, max time.Duration, 
 				}
 				seq = (seq + 1) % 2000
 				tok := fmt.Sprintf("tokhm%dx%d;", k, n)
-				_, _ = hc.Roundtrip(newQueryFrame(hc.Version, seq, fmt.Sprintf("SELECT * FROM ks.t WHERE k = '%s'", tok)), tok, "hammer", time.Second)
+				// forwarded requests, and requests the proxy answers from what it knows about the cluster (OPTIONS, reads of the
+				// virtual system tables): that knowledge is refreshed by the cluster loop while these read it
+				switch n % 4 {
+				case 1:
+					_, _ = hc.Roundtrip(frame.NewFrame(hc.Version, seq, &message.Options{}), "", "hammer", time.Second)
+				case 2:
+					_, _ = hc.Roundtrip(newQueryFrame(hc.Version, seq, "SELECT * FROM system.local"), "", "hammer", time.Second)
+				case 3:
+					_, _ = hc.Roundtrip(newQueryFrame(hc.Version, seq, "SELECT peer, data_center, release_version FROM system.peers"), "", "hammer", time.Second)
+				default:
+					_, _ = hc.Roundtrip(newQueryFrame(hc.Version, seq, fmt.Sprintf("SELECT * FROM ks.t WHERE k = '%s'", tok)), tok, "hammer", time.Second)
+				}
 			}
 		}(k, hc)
 	}
